@@ -1,3 +1,7 @@
+import json
+import os
+import re
+
 from check import Prop
 import vlib
 
@@ -6,11 +10,12 @@ class C28(Prop):
     pid = "C28"
     check_mod = "C28"
     drivers = [dict(pkg="internal/playback", test="TestVerifC28", timeout=900)]
-    n_quick = 2800
+    n_quick = 2400
     n_thorough = 30000
     shard = 250
+    search_factor = 3
     level = "proof"
-    ready = False
+    ready = True
     manifest = dict(
         text="Coq theorems over a panic-explicit Gallina transliteration of the in-tree fMP4 segment parsing code of "
              "internal/playback (segmentFMP4ReadHeader, segmentFMP4ReadDurationFromParts, the box handler of "
@@ -53,6 +58,27 @@ class C28(Prop):
                    "fmp4.Init.Unmarshal never returns a track whose TimeScale is 0",
                    "make([]byte, n) is the only allocation of the in-tree code whose size is taken from the file"]
 
+    def run_drivers(self, ctx, n, seed, replay=None):
+        # other builders add drivers to the same Go package; a half-written one must not break this check:
+        # the overlay gets the common helpers and this property's driver files only
+        orig = vlib.build_overlay
+
+        def only_mine(workdir, pkgdirs):
+            ov = orig(workdir, pkgdirs)
+            with open(ov) as fh:
+                d = json.load(fh)
+            d["Replace"] = {k: v for k, v in d["Replace"].items()
+                            if not re.match(r"zz_verif_c\d", os.path.basename(k))
+                            or re.match(r"zz_verif_c2[78]_", os.path.basename(k))}
+            with open(ov, "w") as fh:
+                json.dump(d, fh, indent=1)
+            return ov
+        vlib.build_overlay = only_mine
+        try:
+            return Prop.run_drivers(self, ctx, n, seed, replay)
+        finally:
+            vlib.build_overlay = orig
+
     def evaluate(self, ctx, cases):
         # the driver's first record carries the definitions of the two base files (every other file is written as
         # an edit of one of them); they go into the header of every cases file
@@ -63,6 +89,19 @@ class C28(Prop):
             return Prop.evaluate(self, ctx, cases)
         finally:
             vlib.CASES_HEADER = old
+
+    def extra_checks(self, ctx, cases):
+        # the witness of the known third-party finding is judged here (same bound as Check.C28.alloc_limit)
+        out = []
+        for c in cases:
+            d = c.get("desc") or {}
+            if d.get("gen") != "known":
+                continue
+            if d.get("observed") == "panic" or d.get("alloc", 0) > 8388608 + 64 * d.get("len", 0):
+                out.append(dict(kind="spec", case=c,
+                                what="%s on %s: %s, %d heap bytes for a file of %d bytes" % (
+                                    d.get("fn"), d.get("what"), d.get("observed"), d.get("alloc", 0), d.get("len", 0))))
+        return out
 
     def known_class(self, case, entries):
         e = Prop.known_class(self, case, entries)
